@@ -96,6 +96,9 @@ def run_case(a):
             # the configured output directory is the flags' (flag > file) and the file's directory must stay untouched
             common.write_tree(os.path.join(root, "app/decoy_out"), [("types.ts", "// foreign: not the configured directory"), ("index.ts", "// foreign"), ("notes.md", "x")])
         steps = rnd.randint(2, 3)
+        # half of the scenarios keep sources and settings as they are between runs: the later runs are then answered from the cache,
+        # which is a code path of its own (it, too, has only the tool's files to touch)
+        vary_cfg = idx % 2 == 0
         wit = {"layout": layout, "path": path, "files": [[p, t] for p, t in compound.render(files)], "planted": planted, "mode": mode}
 
         def do_run(step):
@@ -112,9 +115,9 @@ def run_case(a):
                 argv = [cli, "tauri-typegen", "generate", "-p", os.path.relpath(src, cwd), "-o", os.path.relpath(os.path.join(root, outrel), cwd), "-v", mode]
             elif path == "cli-config":
                 cfgrel = "app/typegen.custom.json"
-                json.dump({"project_path": src, "output_path": os.path.join(root, outrel), "validation_library": mode, "visualize_deps": step == 1},
+                json.dump({"project_path": src, "output_path": os.path.join(root, outrel), "validation_library": mode, "visualize_deps": step == 1 and vary_cfg},
                           open(os.path.join(root, cfgrel), "w"))
-                argv = [cli, "tauri-typegen", "generate", "-c", os.path.join(root, cfgrel)] + (["--force"] if step == 2 else [])
+                argv = [cli, "tauri-typegen", "generate", "-c", os.path.join(root, cfgrel)] + (["--force"] if step == 2 and vary_cfg else [])
             elif path == "cli-flags-over-config":
                 other = "zod" if mode == "none" else "none"
                 decoy_cfg = {"project_path": src, "output_path": os.path.join(root, "app/decoy_out"), "validation_library": other}
@@ -147,7 +150,7 @@ def run_case(a):
                         "-o", "config/typegen.custom.json", "--force"]
             else:
                 cfgrel = None
-                proj.write_tauri_conf(cwd, os.path.relpath(src, cwd), os.path.relpath(os.path.join(root, outrel), cwd), mode, {"visualizeDeps": step == 1})
+                proj.write_tauri_conf(cwd, os.path.relpath(src, cwd), os.path.relpath(os.path.join(root, outrel), cwd), mode, {"visualizeDeps": step == 1 and vary_cfg})
                 argv = [drv, "build"]
             before = fsmon.snapshot(root)
             st["paths_snapshotted"] += len(before)
@@ -184,10 +187,10 @@ def run_case(a):
             return None
 
         for step in range(steps):
-            if step == 1 and rnd.random() < 0.3:
+            if step == 1 and vary_cfg and rnd.random() < 0.3:
                 # remove all commands: the next run finds nothing to generate
                 common.write_tree(src, [(p, "// emptied\npub fn helper() {}\n") for (p, _t) in compound.render(files)])
-            elif step == 2 and rnd.random() < 0.5:
+            elif step == 2 and vary_cfg and rnd.random() < 0.5:
                 mode = "zod" if mode == "none" else "none"
             err = do_run(step)
             if err:
